@@ -7,6 +7,7 @@
   with its specific located diagnostic.
 -/
 import SeedProofs.Lemmas.C16Kinds
+import SeedModel.Run
 namespace Seed.C16
 open Seed
 
@@ -266,6 +267,18 @@ theorem ctx_slot (n : Nat) (σ σ1 : State) (sc : List Addr) (s : List Char) (st
       .err (.atLoc loc.1 (loc.2 + start + 4) (.leaf (Gen.Leaf.InterpolatedValueNotString v.v.kind))) σ1 := by
   simp only [interpolate, hp, h, Res.mapErr, Res.bind]
   cases hv : v.v <;> simp_all [Val.kind]
+
+/-- the situations of the context theorems occur, through the whole pipeline (lexer, parser, evaluator, renderer) -/
+example :
+    (run 300 c!"t.sd" c!"print($\"a${1}b\")\n").stderr = c!"t.sd:1:12: interpolated values can only be strings, got 'int'\n" ∧
+    (run 300 c!"t.sd" c!"print([1..])\n").stderr = c!"t.sd:1:8: only lists can be spread in lists, got 'int'\n" ∧
+    (run 300 c!"t.sd" c!"print({1..})\n").stderr = c!"t.sd:1:8: only objects can be spread in objects, got 'int'\n" ∧
+    (run 300 c!"t.sd" c!"for [i, v] in 1 { print(v); }\n").stderr = c!"t.sd:1:15: 'for' iterator must be a 'list', 'object' or 'string'\n" ∧
+    (run 300 c!"t.sd" c!"x := 1\nprint(x.a)\n").stderr = c!"t.sd:2:7: properties can only be accessed on objects, got 'int'\n" ∧
+    (run 300 c!"t.sd" c!"print(1 .. \"a\")\n").stderr = c!"t.sd:1:12: range end must be 'int', got 'string'\n" ∧
+    (run 300 c!"t.sd" c!"print(null->type())\n").stderr = c!"t.sd:1:7: cannot access type function on 'null'\n" ∧
+    (run 300 c!"t.sd" c!"print(print->type())\nprint([]->type())\n").out = [c!"func", c!"list"] := by
+  decide +kernel
 
 /-- the texts of the context diagnostics name the offending type with the same table -/
 theorem ctx_msgs (descr exp : List Char) (k : Kind) :
